@@ -245,13 +245,22 @@ func timeoutFromHeaders(headers metadata.MD) (time.Duration, bool) {
 	if len(timeoutStr) < 2 {
 		return 0, false
 	}
-	timeout, err := strconv.Atoi(timeoutStr[:len(timeoutStr)-1])
+	if len(timeoutStr) > 9 {
+		// gRPC spec allows at most 8 digits plus the unit
+		return 0, false
+	}
+	// unsigned: the spec does not allow a sign
+	timeout, err := strconv.ParseUint(timeoutStr[:len(timeoutStr)-1], 10, 64)
 	if err != nil {
 		return 0, false
 	}
 	duration := time.Duration(timeout)
 	switch timeoutStr[len(timeoutStr)-1] {
 	case 'H':
+		if timeout > math.MaxInt64/uint64(time.Hour) {
+			// would overflow; saturate (only hours can overflow with 8 digits)
+			return time.Duration(math.MaxInt64), true
+		}
 		return duration * time.Hour, true
 	case 'M':
 		return duration * time.Minute, true
